@@ -475,6 +475,10 @@ def run_scenario(name, log, outdir):
         ev = []
         for ln in strace_lines(st, completions=True):
             done = " completed: " in ln
+            if "verif-commit-begin" in ln:
+                if not done:
+                    ev.append(("begin", ""))
+                continue
             m = re.search(r"(pwrite64|write|fsync|fdatasync|ftruncate)\(\d+<([^>]*)>", ln)
             if m and os.path.basename(m.group(2)) in ("ht", "wal", "meta", "ln", "bbn"):
                 c = m.group(1)
@@ -504,6 +508,10 @@ def run_scenario(name, log, outdir):
             ww = [j for j, e in enumerate(pre) if e == ("write", "wal")]
             if ww and ("sync", "wal") not in pre[ww[-1]:]:
                 problems.append("commit %d: WAL not fsynced before the meta switch-over" % k)
+            # before the switch-over the hash-table file is not written at all (only the redo log is)
+            b0 = max([j for j, e in enumerate(pre) if e[0] == "begin"] or [None]) if any(e[0] == "begin" for e in pre) else None
+            if b0 is not None and ("write", "ht") in pre[b0:]:
+                problems.append("commit %d: the hash-table file is written in place before the meta page is written" % k)
             # the value files' background fsyncs must have *returned* before the meta page is written
             for vf in ("ln", "bbn"):
                 if ("sync", vf) in pre and ("synced", vf) not in pre:
